@@ -22,10 +22,11 @@ var c20Events = []string{
 	"B.publish(q0)", "B.publish(q1)", "A.publish(q2)+PUBREL", "A.ack-oldest", "A.pingreq", "A.DISCONNECT", "A.abrupt-close", "B.close",
 	"advance(21s)", "TerminateSession(A)", "A.takeover(clean0)", "A.unsubscribe(t)", "A.connect(v5,clean1,expiry100)", "A.duplicate-PUBACK",
 	"X.tcp-open-close", "X.first-packet-PINGREQ", "X.CONNECT(v5,auth-method-without-OnAuth)-refused",
+	"A.publish(q0, topic alias above the advertised maximum): broker answers DISCONNECT 0x94",
 }
 
 // c20FailedAlpha: the sub-alphabet of the tree about connections that never attach.
-var c20FailedAlpha = []int{18, 19, 20, 1, 11, 0, 9, 12}
+var c20FailedAlpha = []int{18, 19, 20, 1, 11, 0, 9, 12, 21, 2, 5}
 
 var c20TypeField = map[byte]string{1: "Connect", 2: "Connack", 3: "Publish", 4: "Puback", 5: "Pubrec", 6: "Pubrel", 7: "Pubcomp", 8: "Subscribe", 9: "Suback", 10: "Unsubscribe", 11: "Unsuback", 12: "Pingreq", 13: "Pingresp", 14: "Disconnect", 15: "Auth"}
 
@@ -323,6 +324,21 @@ func c20Run(c *explore.Ctx, cf c20Cfg, seq []int) int {
 				A.ackedIDs = nil
 				T.add("global.ConnectionStats.DisconnectedTotal", 1)
 				c20Offline(&A.queue)
+			case 21:
+				// a broker-originated DISCONNECT: the offending PUBLISH is decoded and counted as
+				// received, the DISCONNECT(0x94) the broker writes is counted as sent
+				if !online(&A) {
+					ok = false
+					break
+				}
+				send(&A, "a", &refmqtt.Packet{Type: refmqtt.PUBLISH, Topic: "other", QoS: 0, Payload: []byte("bad"), Props: &refmqtt.Props{TopicAlias: harness.U16(60000)}})
+				vsched.Settle()
+				account(&A, "a")
+				A.cl.Close()
+				A.online = false
+				A.ackedIDs = nil
+				T.add("global.ConnectionStats.DisconnectedTotal", 1)
+				c20Offline(&A.queue)
 			case 11:
 				if !online(&B) {
 					ok = false
@@ -576,7 +592,7 @@ func c20Gauges(q []c20Q) (queued, inflight uint64) {
 
 func runC20(c *explore.Ctx) {
 	c.Level = "model_checking"
-	c.Rule = "E2: every sequence of the 16-event alphabet (connect v5 persistent / v3 clean, subscribe, publish QoS0/1/2 with PUBREL, ack, PINGREQ, DISCONNECT, abrupt close, clock advance, TerminateSession, take-over, unsubscribe) over two clients up to the depth, plus a tree (depth-1) over connections that never attach (TCP open/close, first packet not CONNECT, CONNECT refused) mixed with ordinary connects and closes, for two broker configurations (default; max_queued 2 / max_inflight 1), on a fresh in-process broker; at every quiescent point every uint64 leaf of GetGlobalStats()/GetClientStats() (packets and bytes per type and direction, per-QoS messages received/sent, queued and in-flight gauges, connection/session counters and gauges) is compared with the harness's own packet log (wire lengths) and session/queue model."
+	c.Rule = "E2: every sequence of the 19-event alphabet (a protocol error answered by a broker-originated DISCONNECT, connect v5 persistent / v3 clean, subscribe, publish QoS0/1/2 with PUBREL, ack, PINGREQ, DISCONNECT, abrupt close, clock advance, TerminateSession, take-over, unsubscribe) over two clients up to the depth, plus a tree (depth-1) over connections that never attach (TCP open/close, first packet not CONNECT, CONNECT refused) mixed with ordinary connects and closes, for two broker configurations (default; max_queued 2 / max_inflight 1), on a fresh in-process broker; at every quiescent point every uint64 leaf of GetGlobalStats()/GetClientStats() (packets and bytes per type and direction, per-QoS messages received/sent, queued and in-flight gauges, connection/session counters and gauges) is compared with the harness's own packet log (wire lengths) and session/queue model."
 	c.Trusted = []string{"vsched default schedule", "refmqtt (packet lengths are the encoded lengths actually exchanged)"}
 	c.Assumptions = []string{"per-client statistics restart when the session is terminated (the broker deletes them); global counters keep the traffic of terminated sessions", "dropped-message counters are checked by C10/C12/C13 through the drop hook, not here"}
 	if rc := replayCase(c); rc != nil {
